@@ -27,6 +27,22 @@ CLAIMED = {
         note="Trusts SimComm as a model of MPI collectives (written from the standard; no MPI library on this image), JAX/XLA, NumPy; populations <= 32 walkers, <= 4 ranks.",
         design_ref="DESIGN.md section 5, C07",
     ),
+    "C08": dict(
+        name="coherence",
+        technique="deterministic simulation: in-loop monitor on every propagate entry of histories produced by the real sampler/driver (driver as an SPMD program on a simulated communicator under seeded schedules and field faults) + refinement of each sampler call against a step-by-step replay model",
+        text=(
+            "Seeded exploration of operation histories: the real sampler entry points (plain, and AD through jvp/vjp as the driver calls "
+            "them) chained with the driver's QR + global reconfiguration glue, and complete driver.afqmc runs on 1-3 simulated ranks "
+            "under PRNG-chosen interleavings, eager/rendezvous patterns, clock jumps and injected field tails. A harness subclass of the "
+            "propagator records at every propagate entry, inside the compiled loops, max |cached - recomputed overlap| / |cached| over "
+            "walkers that still carry weight (invariant: <= 1e-8; unchanged tree: exactly 0), and each sampler call is compared with a "
+            "plain-Python replay through public single steps with explicit refreshes (energy, weights, walkers, overlaps, shift to 1e-9). "
+            "Right level: the property is quantified over histories that only the sampler and driver can produce; a missing refresh "
+            "changes numbers, never shapes, and only after a particular sequence of blocks."
+        ),
+        note="Trusts JAX/XLA, jax.random, and that the replay model's use of the public single-step API is the specification the property names; systems <= 4 orbitals, <= 8 walkers/rank, <= 3 ranks; menu of compiled configurations is sampled, not exhaustive.",
+        design_ref="DESIGN.md section 5, C08",
+    ),
 }
 
 NOT_APPLICABLE = {
@@ -46,7 +62,7 @@ NOT_APPLICABLE = {
 # properties planned as simulation targets whose check is not built yet
 PENDING = {
     k: "planned simulation target (DESIGN.md section 5); its check is not built yet, so nothing is claimed for it in this commit"
-    for k in ["C04", "C05", "C08", "C09", "C10", "C11", "C12", "C14"]
+    for k in ["C04", "C05", "C09", "C10", "C11", "C12", "C14"]
 }
 
 
